@@ -629,6 +629,42 @@ func c02dRuntime(c *Ctx, a *absVariant, gDepth map[string]map[string]int) {
 			r.Bad("C02-d", "G/T."+p.kind+":child-scope-depth", vn, w, fmt.Sprintf("builder visits the child at scope depth +%d, the runtime evaluates it at depth %v: generated methods would read labels from a different map than the one they are bound in", gd, ds))
 		}
 	}
+	// a rule's expression is evaluated in the rule's own scope wherever it is evaluated: any evaluator that hands
+	// <rule>.expr to the expression evaluator itself (not through parseRule) does so one scope deeper, as parseRule does
+	if gd, ok := gDepth["$rule"]["Expr"]; ok {
+		var bad []string
+		n := 0
+		for _, fn := range a.sortedNames() {
+			res := a.Res[fn]
+			ruleParams := map[string]bool{}
+			if res.Fn.Type.Params != nil {
+				for _, f := range res.Fn.Type.Params.List {
+					if nospace(f.Type) == "*rule" {
+						for _, nm := range f.Names {
+							ruleParams[nm.Name] = true
+						}
+					}
+				}
+			}
+			if len(ruleParams) == 0 {
+				continue
+			}
+			for _, e := range res.Exits {
+				for _, ev := range eventsOf(e, "eval") {
+					arg := ev.Args[1]
+					if !strings.HasSuffix(arg, ".expr") || !ruleParams[strings.TrimSuffix(arg, ".expr")] {
+						continue
+					}
+					n++
+					if ev.VS != gd {
+						bad = append(bad, fmt.Sprintf("%s evaluates %s at scope depth +%d", fn, arg, ev.VS))
+					}
+				}
+			}
+		}
+		r.Check(len(bad) == 0 && n > 0, "C02-d", "T.rule-expression:evaluated-in-the-rule's-own-scope", vn, "builder/static_code.go", fmt.Sprintf("%d evaluations of a rule's expression, each at scope depth +%d", n, gd),
+			strings.Join(uniq(bad), "; ")+fmt.Sprintf(" (builder: +%d): the labels of the rule are bound into, and read from, the scope of the rule that referred to it", gd))
+	}
 	// a new scope starts empty: pushV installs a fresh map or reuses one proven empty; popV shortens by one
 	if pv, pp := a.V.Func("parser", "pushV"), a.V.Func("parser", "popV"); pv != nil && pp != nil {
 		sem := pushSemantics(c.vnorm(a.V).normPaths(pv), "vstack")
